@@ -4,6 +4,7 @@
 From Coq Require Import String List NArith ZArith Bool.
 Import ListNotations.
 Require Import Verif.Export.OasTypes Verif.Export.OasExport Verif.Export.SwExport Verif.Gen.ExportTables Verif.Base.Harness.
+Require Import Verif.Export.CliExport Verif.Gen.ExportCli.
 
 (* the model of the CURRENT source: the tables are the regenerated ones (this file does not depend on the obligations
    of OasCurrent.v, so the comparison keeps running when one of them breaks) *)
@@ -53,7 +54,10 @@ Definition P := SPrim. Definition Rf (op:bool) (path:list name) (app ctx:option 
 Definition SP (n:name) (b:bool) (t:sty) := {| sp_name := n; sp_body := b; sp_ty := t |}.
 Definition QP (n:name) (t:sty) := {| q_name := n; q_ty := t |}.
 Definition RT (bare:bool) (n:name) (ok:bool) (a:option Z) (s:rshape) := {| rt_bare := bare; rt_name := n; rt_isok := ok; rt_atoi := a; rt_shape := s |}.
-Definition EP (k:ekey) ps qs us rs := {| e_key := k; e_params := ps; e_query := qs; e_url := us; e_rets := rs |}.
+(* the harness prints the statement tree of the endpoint; the return statements the exporter reads are what the model's
+   `reach_rets` makes of it with the kinds regenerated from syslwrapper.ReturnStatements *)
+Definition EP (k:ekey) ps qs us (ss:list sstmt) :=
+  {| e_key := k; e_params := ps; e_query := qs; e_url := us; e_rets := reach_rets ret_descend_of_source ss |}.
 Definition AP (n n200:name) ts es := {| a_name := n; a_n200 := n200; a_types := ts; a_endpoints := es |}.
 Definition OP (n:name) (i:string) (r:bool) (s:schema) := {| op_name := n; op_in := i; op_required := r; op_schema := s |}.
 Definition OB (r:bool) (s:option schema) := {| ob_required := r; ob_schema := s |}.
@@ -77,3 +81,25 @@ Definition c12s_ok (c:c12s_case) : bool :=
 Definition T2 (t:ft2) (ms:list (name*ft2)) := {| tt := t; tt_members := ms |}.
 Definition F (ty fmt:string) (it:option (string*string)) := {| f_ty := ty; f_fmt := fmt; f_items := it |}.
 Definition D (m:fsch) (ps:list (name*fsch)) := {| d_main := m; d_props := ps |}.
+
+(* ---- the command `sysl export` (Export/CliExport.v): one case = (the flags given, the application names of the module in
+   ascending order, what the real binary did: an error class, or the files it wrote - name token, which exporter's document
+   the file holds, the syntax of its bytes, the application it describes - in ascending order of the application) *)
+Inductive cli_obs := XErr (cls:string) | XTransform | XFiles (fs:list (fname * string * string * string)).
+Definition fname_eqb (a b:fname) : bool :=
+  match a, b with
+  | FLit, FLit => true | FInfix x, FInfix y => String.eqb x y | FLabel x, FLabel y => String.eqb x y | _, _ => false
+  end.
+Definition c12c_case := (list (string*string) * list string * cli_obs)%type.
+Definition c12c_ok (c:c12c_case) : bool :=
+  match cli_run cli_tables_of_source (fun l => l) (fst (fst c)) (snd (fst c)), snd c with
+  | CErr a, XErr b => String.eqb a b
+  | CTransform, XTransform => true
+  | CFiles ws, XFiles fs =>
+      list_eqb (fun (a b:fname*string*string*string) =>
+                  match a, b with (n1, e1, s1, a1), (n2, e2, s2, a2) =>
+                    fname_eqb n1 n2 && String.eqb e1 e2 && String.eqb s1 s2 && String.eqb a1 a2
+                  end)
+               (map (fun w => (w_file w, w_exporter w, ser_format (w_ser w), w_app w)) ws) fs
+  | _, _ => false
+  end.
